@@ -148,6 +148,14 @@ impl Op {
     pub fn may_noop(&self) -> bool {
         matches!(self, Op::Compact { .. })
     }
+    /// how many commits (transactions) one successful call may make: compaction without indices
+    /// to remap first commits ReserveFragments, then Rewrite
+    pub fn max_commits(&self) -> u64 {
+        match self {
+            Op::Compact { .. } => 2,
+            _ => 1,
+        }
+    }
     /// operations whose successful commit is not part of the branch history
     pub fn is_detached(&self) -> bool {
         matches!(self, Op::DetachedAppend { .. })
